@@ -181,6 +181,13 @@ def run_unit(unit, variant, multiple_errors=20, extra_args=(), rlimit=None, inli
             if d.get("level") == "error" and m:
                 names.add(m.group(1) or m.group(2) or m.group(3))
         helpers = {}
+        desugar = set()
+        for d in diags:
+            m2 = re.search(r"`core::option::impl&%\d+::(map_or|filter|map|and_then|is_some_and)` is not supported", d.get("message", ""))
+            if d.get("level") == "error" and m2:
+                desugar.add(m2.group(1))
+        if desugar:
+            helpers["__desugar__"] = desugar
         if names:
             import extract as X
             import rules as RR
